@@ -1086,10 +1086,127 @@ func (g *c12gen) compaction(nkeys int) {
 	}
 }
 
+// staggered: several level-0 tables from separate sessions (a retire-reopen empties the memtables,
+// so each table holds only its session's keys) with key ranges of different lengths, newer tables
+// overwriting/deleting keys of older ones; then range compactions over a narrow range at the low
+// end: the selected tables reach beyond the range by different amounts, and older tables overlap
+// only those tails (the widening loop of CompactRange has to pull them in).
+func (g *c12gen) staggered(id string) {
+	w, r := g.w, g.r
+	fmt.Fprintf(w, "case %s memsize=100000 maxmem=8 ratio=1000000 sstmax=%d\n", id, []int{1000000, 1000000, 3}[r.Intn(3)])
+	key := func(i int) string { return fmt.Sprintf("%02x", 0x61+i) } // a..z
+	seen := map[int]bool{}
+	table := func(ks []int, dels map[int]bool) {
+		sort.Ints(ks)
+		for _, i := range ks {
+			if dels[i] {
+				if r.Intn(2) == 0 {
+					fmt.Fprintf(w, "del %s\n", key(i))
+				} else {
+					fmt.Fprintf(w, "commit 1\nd %s\n", key(i))
+				}
+			} else {
+				fmt.Fprintf(w, "put %s %s\n", key(i), g.val())
+			}
+			seen[i] = true
+		}
+		fmt.Fprintf(w, "full\nretire\n")
+	}
+	if r.Intn(2) == 0 {
+		// "tail" variant: an old table Z beyond the reach of the newest table Y, a middle table X that
+		// starts inside the range, rewrites/deletes keys of Z and reaches past them; optional extras
+		R := 1 + r.Intn(3)         // the range asked for is [a .. key(R)]
+		yhi := R + 1 + r.Intn(3)   // last key of Y
+		zlo := yhi + 1 + r.Intn(3) // first key of Z: beyond Y
+		nsh := 1 + r.Intn(3)
+		shared := map[int]bool{}
+		for len(shared) < nsh {
+			shared[zlo+r.Intn(6)] = true
+		}
+		maxsh := 0
+		var zs, xs []int
+		dels := map[int]bool{}
+		for i := range shared {
+			zs = append(zs, i)
+			xs = append(xs, i)
+			if i > maxsh {
+				maxsh = i
+			}
+			if r.Intn(3) == 0 {
+				dels[i] = true
+			}
+		}
+		if !shared[zlo] {
+			zs = append(zs, zlo)
+		}
+		if r.Intn(2) == 0 {
+			zs = append(zs, maxsh+1+r.Intn(3))
+		}
+		if r.Intn(3) == 0 { // an even older table somewhere
+			table([]int{r.Intn(20), 20 + r.Intn(5)}, nil)
+		}
+		table(zs, nil)
+		xs = append(xs, r.Intn(R+1))
+		if r.Intn(2) == 0 {
+			xs = append(xs, maxsh+1+r.Intn(3))
+		}
+		table(xs, dels)
+		ys := []int{r.Intn(R + 1), yhi}
+		if ys[0] == xs[len(xs)-1] {
+			ys[0] = (ys[0] + 1) % (R + 1)
+		}
+		table(ys, nil)
+		fmt.Fprintf(w, "range %s %s\n", key(0), key(R))
+	} else {
+		ntab := 3 + r.Intn(3)
+		for t := 0; t < ntab; t++ {
+			lo := r.Intn(14)
+			span := 1 + r.Intn(11)
+			if t == ntab-1 || r.Intn(3) == 0 { // some tables start at the low end, inside the ranges asked for below
+				lo = r.Intn(3)
+			}
+			idx := map[int]bool{lo: true, lo + span: true}
+			for j := r.Intn(3); j > 0; j-- {
+				idx[lo+r.Intn(span+1)] = true
+			}
+			var ks []int
+			dels := map[int]bool{}
+			for i := range idx {
+				ks = append(ks, i)
+				if seen[i] && r.Intn(3) == 0 {
+					dels[i] = true
+				}
+			}
+			table(ks, dels)
+		}
+	}
+	for c := 1 + r.Intn(2); c > 0; c-- {
+		a := r.Intn(3)
+		fmt.Fprintf(w, "range %s %s\n", key(a), key(a+r.Intn(4)))
+		if r.Intn(3) == 0 {
+			fmt.Fprintf(w, "trigger\n")
+		}
+	}
+	fmt.Fprintf(w, "full\nretire\n")
+	var all []int
+	for i := range seen {
+		all = append(all, i)
+	}
+	sort.Ints(all)
+	for _, i := range all {
+		fmt.Fprintf(w, "get %s\n", key(i))
+	}
+	fmt.Fprintf(w, "end\n")
+}
+
 func genC12(w *bufio.Writer, seed int64, n int, tier string) {
 	r := rand.New(rand.NewSource(seed*7919 + 12))
 	for ci := 0; ci < n; ci++ {
 		g := &c12gen{w: w, r: r}
+		if ci%4 == 2 {
+			g.staggered(fmt.Sprintf("c12-%d-%d", seed, ci))
+			continue
+		}
 		memsize := []int{1500, 100000, 100000, 100000}[r.Intn(4)]
 		maxmem := 2 + r.Intn(3)
 		g.small = memsize < 100000
